@@ -369,6 +369,9 @@ class C12(Prop):
         return (res_shape(obs.get('r')), conv)
     def nontrivial(self, line, impl):
         return entry_of(line) == 'packet' and len(input_of(line)) >= 4
+    def companions(self, line):
+        b = input_of(line)
+        return (['parse %s %s' % (t, hx(b)) for t in self.ALL + ['packet']], None)
     def group_oracle(self, recs):
         typed = {(entry_of(l), input_of(l)): a for l, a, m in recs if entry_of(l) != 'packet'}
         out = []
@@ -478,6 +481,12 @@ class C13(Prop):
         return (obs.get('r'), obs.get('items') if entry_of(line) == 'compound' else None)
     def nontrivial(self, line, impl):
         return line in self.pairs
+    def companions(self, line):
+        c = self.pairs.get(line)
+        return ([c[0]], list(c)) if c else ([], None)
+    def restore(self, line, state):
+        if state:
+            self.pairs[line] = (state[0], state[1])
     def group_oracle(self, recs):
         by = {l: a for l, a, m in recs}
         out = []
@@ -609,6 +618,10 @@ class C14(Prop):
                 tuple(item_shape(x) for x in (S.parse(obs.get('rt.items', '()')) or [])))
     def nontrivial(self, line, impl):
         return member_type(line) == 'compound'
+    def companions(self, line):
+        if kind_of(line) != 'build' or member_type(line) != 'compound':
+            return [], None
+        return (['build e0:aa,e0:55 ' + m for m in split_members(line)], None)
     def group_oracle(self, recs):
         by = {l: a for l, a, m in recs}
         bym = {l: m for l, a, m in recs}
@@ -752,6 +765,14 @@ class C15(Prop):
         if got is None:
             return []
         if got != want:
+            # the property does not say what an empty FIR / SLI body decodes to: the code (and the reference, which
+            # mirrors it) answers Truncated, the empty list would satisfy the text as well (known finding D15 is about
+            # the builder side of this); either is accepted by the oracle - the correspondence still notices a change
+            def norm(x):
+                return (x or '').replace('(err (Truncated 8 0))', '<EMPTY>').replace('(err (Truncated 4 0))', '<EMPTY>') \
+                                .replace('(ok (ok ()))', '<EMPTY>')
+            if norm(got) == norm(want):
+                return []
             return ['FCI decoding %s differs from the RFC reference %s' % (got[:300], (want or '')[:300])]
         return []
 
@@ -1123,9 +1144,20 @@ class C20(Prop):
                 canon_fir_bytes('build x ' + self._member_hint(line), first[1]) if first and first[1] is not None else None)
     def _member_hint(self, line):
         c = self.canon.get(line)
-        return toks(c[0])[2] + ' ' + ' '.join(toks(c[0])[3:]) if c else ' '.join(toks(line)[2:])
+        if c:
+            return toks(c[0])[2] + ' ' + ' '.join(toks(c[0])[3:])
+        t = toks(line)
+        if kind_of(line) == 'hist' and len(t) > 5 and t[2] == 'fb' and t[5] == 'fir':
+            return 'fb p 0 0 0 fir'      # enough for canon_fir_bytes to sort the entries (HashMap order is random)
+        return ' '.join(t[2:])
     def nontrivial(self, line, impl):
         return kind_of(line) == 'hist'
+    def companions(self, line):
+        c = self.canon.get(line)
+        return ([c[0]], list(c)) if c else ([], None)
+    def restore(self, line, state):
+        if state:
+            self.canon[line] = (state[0], state[1])
     def group_oracle(self, recs):
         by = {l: a for l, a, m in recs}
         out = []
